@@ -47,6 +47,12 @@ ASSUMPTIONS = [
     "the documented state machine is the transition table of DESIGN.md 5.C16 (Spec/VerificatorSpec.v): 'all "
     "verifications received' is evaluated at the report that terminates the sequence, with the fields as they "
     "are at that moment",
+    "object identity is modelled where the property speaks about answers: a TmCheckResult is a fresh object per call "
+    "(completed flag never rewritten) whose status is the dictionary's own VerificationStatus object until remove_entry / "
+    "remove_completed_entries detach it (Model.Verificator.hrun / refresh); handing out the dictionary's status object and "
+    "the verif_dict getter returning the internal dictionary are design decisions, not checked as defects",
+    "the tracker and the reports own their request ids (copies since /repo 1eb149b): a caller editing its telecommand "
+    "objects afterwards is not a tracker operation (HCallerEdit)",
 ]
 TRUSTED = []
 TS = bytes(7)
